@@ -280,7 +280,7 @@ impl Encodings {
         let full = g.full();
         let many_attackers = (0..n).any(|a| g.attackers[a].count_ones() >= 2);
         for enc in ENCODERS {
-            if enc == Enc::ExpCo && exp_cost(&case.g, matches!(case.pres, Pres::Iccma)) > EXP_LIMIT {
+            if enc == Enc::ExpCo && (!crate::checks::statics::enc_feasible(enc, &case.g, &case.pres) || exp_cost(&case.g, matches!(case.pres, Pres::Iccma)) > EXP_LIMIT) {
                 rec.class("exp-encoder-skipped-exponential-size");
                 continue;
             }
